@@ -337,6 +337,21 @@ theorem C02_declaration_general (env : Env) (hp : RulesProgress env.cfg = true) 
   toplevel_variable_pre env hp F D w toks first trest segs cst vol pre ops x semi d1 b1 b0 bmid bx b' blk rest hstack hk hmu hfa
     hspec htoks hfirst htok hy0 hhead hy hpre hfn hops htx hx hxv hsemi hs hF
 
+/-- **parameter lists over ANY type specifier × ANY declarator prefix**: `_parse_parameters` on `p1 , … , pn )` with every
+    `pi` of the form `Sᵢ prefixᵢ nameᵢ` (`TypeSpecR` × `PrefixSpec`) returns the parameters in order, each with its own
+    name and the type ITS prefix denotes over the type ITS specifier denotes; nothing leaks from one parameter into
+    the next, no vararg, nothing dropped by the `void` rule; the stream is right after the `)` -/
+theorem C02_parameters_general (env : Env) (F D : Nat) (ps : List (PItemG × Tok)) (last : PItemG) (cp : Tok)
+    (w : World) (b' : Buf)
+    (hall : ∀ q ∈ ps, q.1.OK env F D ∧ q.2.type = "," ∧ q.2.value ≠ ")")
+    (hlast : last.OK env F D) (hcp : cp.type = ")") (hcpv : cp.value = ")")
+    (hy : Yields env.cfg w.buf (plistToks ps last cp) b') (hF : ps.length + 1 ≤ F) :
+    ∃ (w' : World),
+      interp env (parseParametersStep F (core F (D + 1 + 1 + 1)) true) w =
+        (w', .ok (ps.map (fun q => q.1.param) ++ [last.param], false, [])) ∧
+      SameButLog w w' ∧ w'.buf = b' :=
+  parseParameters_gen env F D ps last cp w b' hall hlast hcp hcpv hy hF
+
 /-! non-vacuity: `const unsigned long volatile * const p ;` is a `SpecDeclToks` that satisfies `OK`, and the
     corresponding `Item.variableGen` reads exactly those tokens from a stream that holds them -/
 section nonvacuity
@@ -385,6 +400,22 @@ example (env : Env) (hp : RulesProgress env.cfg = true) (hnf : env.faultAt = non
           tk "const" "const", tk "&" "&", tk "NAME" "r", tk ";" ";"], lex := lex, bounded := true } bE :=
   ⟨{ tokbuf := [], lex := lex, bounded := true }, refDecl_ok env F (D + 1 + 1) hF,
     Yields.of_tokbuf env.cfg lex true refDecl.toks [] (by decide)⟩
+
+/-- the parameter `const unsigned long * p` satisfies the side conditions of `C02_parameters_general` -/
+private def cvParam : PItemG :=
+  { spec := [tk "const" "const", tk "unsigned" "unsigned", tk "long" "long"], segs := [.fund "unsigned long"], cst := true, vol := false,
+    ops := [tk "*" "*"], name := tk "NAME" "p", ty := .ptr (.type (.mk [.fund "unsigned long"] none false) true false) false false }
+
+example (env : Env) (F D : Nat) (hF : 5 ≤ F) : cvParam.OK env F D where
+  spec := typeSpecR_cv env F D [tk "const" "const"] [tk "unsigned" "unsigned", tk "long" "long"] [] [.fund "unsigned long"]
+    (nameSpecR_fund env F D (tk "unsigned" "unsigned") [tk "long" "long"] rfl (by decide) (by decide) (by show 1 + 1 ≤ F; omega))
+    (by decide) (by decide) (by show 1 + 0 + 3 ≤ F; omega)
+  first := ⟨_, _, rfl, by decide, by decide, by decide⟩
+  head := by decide
+  pre := prefixSpec_ptr env F (D + 1) _ _ [("*", "*")] rfl (by show 1 + 1 ≤ F; omega)
+  notFn := rfl
+  nameTy := rfl
+  notVoid := rfl
 end nonvacuity
 
 end
